@@ -12,19 +12,25 @@ structure Uni where
   widths : Array Nat := #[]
   strides : Array Nat := #[]
   dflts : Array Nat := #[]
+  mods : Array Nat := #[]
   D : Nat := 1
   /-- varVal[v][x] = bit set of the assignments in which variable v has value x -/
   varVal : Array (Array Nat) := #[]
   deriving Inhabited
 
-def Uni.index (u : Uni) (a : Asg) : Nat := Id.run do
-  let mut i := 0
-  for v in [0:u.nvars] do
-    i := i + (a v % 2 ^ u.widths[v]!) * u.strides[v]!
-  return i
+/-- Speed only: assignments produced by `Uni.asg` carry their own index (+1) in the pseudo-variable `nvars`, so
+that table look-ups need not recompute it; any other assignment (completed cached models) has 0 there. -/
+def Uni.index (u : Uni) (a : Asg) : Nat :=
+  let t := a u.nvars
+  if t != 0 then t - 1 else Id.run do
+    let mut i := 0
+    for v in [0:u.nvars] do
+      i := i + (a v % u.mods[v]!) * u.strides[v]!
+    return i
 
-def Uni.asg (u : Uni) (i : Nat) : Asg := fun v =>
-  if v < u.nvars then (i / u.strides[v]!) % 2 ^ u.widths[v]! else 0
+def Uni.asg (u : Uni) (i : Nat) : Asg :=
+  let vals : Array Nat := (Array.range u.nvars).map fun v => (i / u.strides[v]!) % u.mods[v]!
+  fun v => if v < u.nvars then vals[v]! else if v == u.nvars then i + 1 else 0
 
 def Uni.full (u : Uni) : Nat := 2 ^ u.D - 1
 
@@ -43,6 +49,7 @@ structure DState where
   builds : Std.HashMap String Nat := {}
   /-- constraint id ↦ first constraint id with the same Z3 AST (assertion lists are compared through it) -/
   canon : Std.HashMap Nat Nat := {}
+  dom : List Asg := []
   falseId : Nat := 0
   cls : SolverClass := .Solver
   world : World := {}
@@ -77,6 +84,9 @@ def maskOf (u : Uni) (f : Asg → Bool) : Nat := Id.run do
   for i in [0:u.D] do
     if f (u.asg i) then m := m ||| (1 <<< i)
   return m
+
+def maskOfDom (dom : List Asg) (f : Asg → Bool) : Nat :=
+  (dom.foldl (fun (acc : Nat × Nat) a => (if f a then acc.1 ||| (1 <<< acc.2) else acc.1, acc.2 + 1)) (0, 0)).1
 
 def conOfMask (u : Uni) (id : Nat) (vars : List Nat) (isFalse : Bool) (conc : Option Bool)
     (triv : Option (Var × Nat × Nat)) (mask : Nat) : Con :=
@@ -176,8 +186,8 @@ def showOut : Out → String
 
 def zconMask (d : DState) (c : ZCon) : Nat :=
   match c.tag with
-  | .con id => if id != 0 then (match d.cons.get? id with | some (_, m) => m | none => maskOf d.uni c.sem) else maskOf d.uni c.sem
-  | _ => maskOf d.uni c.sem
+  | .con id => if id != 0 then (match d.cons.get? id with | some (_, m) => m | none => maskOfDom d.dom c.sem) else maskOfDom d.dom c.sem
+  | _ => maskOfDom d.dom c.sem
 
 def queryMask (d : DState) (q : Query) : Nat :=
   q.all.foldl (fun m c => m &&& zconMask d c) d.uni.full
@@ -226,10 +236,11 @@ def handleUni (d : DState) (args : List String) : DState × String :=
     let widths := (parseList ws).toArray
     let dflts := (parseList ds).toArray
     let (strides, D) := widths.foldl (fun (acc : Array Nat × Nat) w => (acc.1.push acc.2, acc.2 * 2 ^ w)) (#[], 1)
-    let u0 : Uni := { nvars := widths.size, widths, strides, dflts, D }
+    let u0 : Uni := { nvars := widths.size, widths, strides, dflts, D, mods := widths.map (2 ^ ·) }
     let varVal := (Array.range widths.size).map fun v =>
       (Array.range (2 ^ widths[v]!)).map fun x => maskOf u0 fun a => a v == x
-    ({ d with uni := { u0 with varVal } }, "ok")
+    let u := { u0 with varVal }
+    ({ d with uni := u, dom := (List.range u.D).map u.asg }, "ok")
   | _ => (d, "bad-uni")
 
 def parseOptNat (s : String) : Option Nat := if s == "-" then none else s.toNat?
@@ -278,12 +289,12 @@ def handleBld (d : DState) (args : List String) : DState × String :=
       | _ => none
     match bk, d.cons.get? cid with
     | some bk, some (c, m) =>
-      let ok := maskOf d.uni bk.sem == m && subsetB c.vars bk.exp.vars
+      let ok := maskOfDom d.dom bk.sem == m && subsetB c.vars bk.exp.vars
       (d, if ok then "ok" else s!"build-mismatch {key}")
     | _, _ => (d, s!"bad-bld {key}")
   | _ => (d, "bad-bld")
 
-def specDom (d : DState) : List Asg := (List.range d.uni.D).map d.uni.asg
+def specDom (d : DState) : List Asg := d.dom
 
 def handleOp (d : DState) (args : List String) : DState × String :=
   -- op <i> <name> <args...> ;; <events...>
@@ -316,7 +327,10 @@ def handleOp (d : DState) (args : List String) : DState × String :=
         -- the property itself, on the model's answer, by the executable reference
         let userCons := (d.added.getD i []).filterMap fun c => (d.cons.get? c).map (·.1)
         let userCons := match op with | .add cs => userCons ++ cs | _ => userCons
-        match judgeFin (specDom d) userCons op out with
+        -- `modelsOn dom (userCons ++ extra)` computed through the bit-set tables (same list, faster)
+        let mk := (userCons ++ op.extra).foldl (fun m c => m &&& zconMask d (ZCon.ofCon c)) d.uni.full
+        let ms := (d.dom.foldl (fun (acc : List Asg × Nat) a => (if mk.testBit acc.2 then a :: acc.1 else acc.1, acc.2 + 1)) ([], 0)).1.reverse
+        match judgeModels ms op out with
         | none => pure ()
         | some why => ds := ds ++ ["spec:" ++ why]
         return ds
